@@ -133,8 +133,9 @@ theorem call_shape :
     Gen.Netref.makeMethodShapes.lookup "__call__" = some ("(*,**)", "syncreq", "self", "HANDLE_CALL", ["$*", "tuple(items($**))"]) := by
   decide
 
-/-- the proxy's `__call__` takes no keyword name for itself (observed on the real made method for `self`, `_self`,
-`args`, `kwargs`, ...): whatever keyword arguments the caller supplies are the ones `kwargs_preserved` is about -/
+/-- the proxy's `__call__` takes no keyword name for itself (observed on the real made method for every parameter name
+of its own signature - the only names it could capture - and for `self`, `_self`, `args`, `kwargs`, ...; `call_shape`'s
+`(*,**)` says the same: no leading named parameter): whatever keyword arguments the caller supplies are the ones `kwargs_preserved` is about -/
 theorem call_reserves_no_keyword : Gen.Netref.reservedKeywords = [] := by decide
 
 /-! ### non-vacuity: a concrete program meets the hypotheses and computes across the connection -/
